@@ -1247,7 +1247,7 @@ func TestVerifC06Replay(t *testing.T) {
 	rep.Assume("restart model = single-node restart: the whole log suffix after the snapshot is at or below the commit index when the first entry is applied, so all of it is applied with recovered=true (validated against the real Apply by the restart unit)")
 	rep.Assume("stream.resumeAll, group partition assignments and the activity index are not part of the compared digest (observations only)")
 	root := kit.NewRNG(kit.Mix(kit.Seed(), 0xC06))
-	nh := kit.EnvInt("C06_HISTORIES", kit.Scale(230, 1800))
+	nh := kit.EnvInt("C06_HISTORIES", kit.Scale(200, 1800))
 	seeds := make([]uint64, nh)
 	for i := range seeds {
 		seeds[i] = root.Uint64()
@@ -1413,6 +1413,9 @@ func c06RunHistory(rep *kit.Report, id int, seed uint64) {
 					c06RemoveLater(dir)
 				}()
 				rep.Count("splits_checked", 1)
+				if late {
+					rep.Count("splits_replayed_with_late_notification", 1)
+				}
 				if err != nil {
 					if c06ErrClass(err) == "harness-copy" {
 						rep.Inconc(err.Error())
